@@ -145,6 +145,34 @@ def damage(rng, data, kind):
     raise ValueError(kind)
 
 
+def foreign_variants():
+    """the 'foreign' files of damage(), enumerated: every cut of the LAS / DAT texts at a line boundary with every ending, the
+    whole files, and every prefix of the magic numbers the sniffer knows"""
+    las = [b'~Version Information Section', b'VERS. 2.0 : CWLS LOG ASCII STANDARD - VERSION 2.0', b'WRAP. NO : One line per depth step',
+           b'~Well Information Section', b'STRT.M 100.0 : START', b'STOP.M 101.0 : STOP', b'STEP.M 0.5 : STEP', b'NULL. -999.25 : NULL',
+           b'~Curve Information Section', b'DEPT.M : depth', b'GR.GAPI : gamma', b'~A', b'100.0 1.0', b'100.5 2.0', b'101.0 3.0']
+    dat = [b'UTIM Unix Time sec', b'DATE Date ddmmyy', b'TIME Time hhmmss', b'WAC Wits Activity Code unitless', b'UTIM DATE TIME WAC',
+           b'1165665017 09Dec06 11-50-17 0', b'1165665077 09Dec06 11-51-17 0']
+    out = []
+    for nl in (b'\n', b'\r\n'):
+        out.append(('las', nl.join(las) + nl))
+        out.append(('dat', nl.join(dat) + nl))
+        for k in range(1, 6):
+            for end in (b'', nl, nl + nl, nl + b'# comment' + nl):
+                out.append(('las-cut-%d' % k, nl.join(las[:k]) + end))
+            out.append(('las-comment-cut-%d' % k, b'# exported' + nl + nl + nl.join(las[:k]) + nl))
+        for k in range(1, 7):
+            for end in (b'', nl):
+                out.append(('dat-cut-%d' % k, nl.join(dat[:k]) + end))
+    for name, magic in (('xml', b'<?xml version="1.0"?>\n<a/>'), ('pdf', b'%PDF-1.4\n%'), ('ps', b'%!PS-Adobe-3.0\n'), ('zip', b'PK\x03\x04\x14\x00'),
+                        ('tiff-le', b'II*\x00'), ('tiff-be', b'MM\x00*'), ('jpeg', b'\xff\xd8\xff\xe0\x00\x10JFIF\x00'), ('exe', b'MZ\x90\x00'),
+                        ('lisver', b'\n=LIS VERIFICATION by PETROLOG rev 5.2\ntext\n')):
+        for k in sorted({1, 2, len(magic) // 2, len(magic) - 1, len(magic)}):
+            if k >= 1:
+                out.append(('%s-%d' % (name, k), magic[:k]))
+    return out
+
+
 MUST_NOT_CONVERT = ('empty', 'text', 'random', 'zeros', 'header', 'foreign')
 
 
@@ -618,7 +646,7 @@ def run(ctx):
         os.makedirs(fdir)
         positions = list(range(0, min(len(base), ctx.pick(96, 512)), ctx.pick(3, 1))) + list(range(512, len(base), ctx.pick(211, 61)))
         variants = [('empty', b''), ('text', damage(frng, base, 'text')), ('zeros', damage(frng, base, 'zeros')), ('header', damage(frng, base, 'header'))] + \
-                   [('foreign', damage(frng, base, 'foreign')) for _ in range(12)]
+                   [('foreign', damage(frng, base, 'foreign')) for _ in range(4)] + [('foreign', d_) for _n, d_ in foreign_variants()]
         for p in positions:
             variants.append(('truncate@%d' % p, base[:p]))
             for name, f in (('bit0', lambda x: x ^ 1), ('bit7', lambda x: x ^ 0x80), ('ff', lambda x: 0xFF if x != 0xFF else 0), ('00', lambda x: 0 if x else 0xFF)):
